@@ -12,7 +12,9 @@ Inductive sstep :=
 | SPoison (n : nat) | SStop (n : nat) | SSelf (n : nat) | SCrash (n : nat)   (* each creates the next stop handle *)
 | SAwait (k : nat)
 | SWaitGate (g : nat) | SRelease (g : nat) | SHold (k c m : nat)
-| SProbe (n : nat).
+| SProbe (n : nat)
+| SSpawn (p c : nat)       (* p spawns child c on demand, from a Receive *)
+| SRestart (n : nat).      (* n panics with restart budget left: new incarnation, same process and Context *)
 
 Record xinfo := { xi_n : nat; xi_self_reg : bool; xi_desc_reg : list nat; xi_kids : list nat;
                   xi_parent : option nat }.
@@ -20,21 +22,29 @@ Record ohandle := { oh_kind : nat;          (* 0 poison, 1 stop, 2 self, 3 crash
                     oh_target : nat; oh_at_return : bool; oh_done : bool; oh_alive : list nat }.
 Record oprobe := { op_n : nat; op_answered : bool; op_kids : list nat; op_parent : option nat }.
 Record obs := { o_events : list oev; o_xinfo : list xinfo; o_started : list (nat * option nat);
-                o_handles : list ohandle; o_probes : list oprobe; o_hang : bool; o_gate_timeout : bool }.
+                o_handles : list ohandle; o_probes : list oprobe; o_hang : bool; o_gate_timeout : bool;
+                o_rstops : nat }.    (* Stopped deliveries to incarnations that a restart replaced *)
 
-Record case := { c_tree : tree; c_gates : list nat; c_steps : list sstep; c_obs : obs }.
+Record case := { c_tree : tree; c_maxr : nat; c_gates : list nat; c_steps : list sstep; c_obs : obs }.
 
 (** ** Replaying the scenario *)
 
+(* A restart is not an event of the children-map machine: the process keeps its
+   Context, and with it the children map and parentCtx, across incarnations
+   (process.Start only replaces the receiver).  So [SRestart] leaves [m_book]
+   alone; see [hrun_restart] in TreeProofs.v. *)
 Record mstate := {
+  m_tree : tree;                     (* the tree so far: the scripted one plus the children spawned on demand *)
   m_handles : list (nat * nat);      (* kind, target; in creation order *)
   m_stopping : list nat;             (* actors inside a subtree that was told to stop *)
   m_stopped : list nat;              (* actors known to have finished stopping (an await returned) *)
   m_closed : list nat;               (* gates still closed *)
   m_book : bstate;                   (* the children maps *)
+  m_spawned : bstate;                (* the children maps with the spawns only (who spawned whom) *)
   m_at_return : list (option bool);  (* per handle: predicted "done on return" (None: depends on the schedule) *)
   m_probes : list (nat * list nat * option nat);        (* model answers *)
   m_spec_probes : list (nat * list nat * option nat);   (* specification answers *)
+  m_restarted : list nat;            (* one entry per restart *)
   m_tags : list nat }.
 
 Definition option_nat_eqb (a b : option nat) : bool :=
@@ -46,6 +56,12 @@ Definition blocked (t : tree) (closed : list nat) (n : nat) : bool :=
 Definition add_all (l acc : list nat) : list nat :=
   fold_left (fun a x => if memb x a then a else a ++ [x]) l acc.
 
+(* a new leaf c under p *)
+Fixpoint add_kid (p c : nat) (t : tree) : tree :=
+  match t with
+  | Node i ks => Node i (map (add_kid p c) ks ++ (if Nat.eqb i p then [Node c []] else []))
+  end.
+
 (* the actors of [p]'s subtree that have not been recorded as stopped yet, in stop order *)
 Definition newly_stopped (t : tree) (stopped : list nat) (p : nat) : list bop :=
   match find_sub t p with
@@ -54,19 +70,29 @@ Definition newly_stopped (t : tree) (stopped : list nat) (p : nat) : list bop :=
                      (stopped_ops (stop_tree s))
   end.
 
-Definition do_await (t : tree) (m : mstate) (k : nat) : mstate :=
+Definition upd_m (m : mstate) (handles : list (nat * nat)) (stopping stopped : list nat)
+    (at_return : list (option bool)) (tags : list nat) : mstate :=
+  {| m_tree := m_tree m; m_handles := handles; m_stopping := stopping; m_stopped := stopped;
+     m_closed := m_closed m; m_book := m_book m; m_spawned := m_spawned m; m_at_return := at_return;
+     m_probes := m_probes m; m_spec_probes := m_spec_probes m; m_restarted := m_restarted m;
+     m_tags := m_tags m ++ tags |}.
+
+Definition do_await (m : mstate) (k : nat) : mstate :=
+  let t := m_tree m in
   match nth_error (m_handles m) k with
   | None => m
   | Some (_, p) =>
-    {| m_handles := m_handles m; m_stopping := m_stopping m;
+    {| m_tree := t; m_handles := m_handles m; m_stopping := m_stopping m;
        m_stopped := add_all (closure t p) (m_stopped m);
        m_closed := m_closed m;
        m_book := fold_left bstep (newly_stopped t (m_stopped m) p) (m_book m);
+       m_spawned := m_spawned m;
        m_at_return := m_at_return m; m_probes := m_probes m; m_spec_probes := m_spec_probes m;
-       m_tags := m_tags m |}
+       m_restarted := m_restarted m; m_tags := m_tags m |}
   end.
 
-Definition new_handle (t : tree) (m : mstate) (kind n : nat) : mstate :=
+Definition new_handle (m : mstate) (kind n : nat) : mstate :=
+  let t := m_tree m in
   (* done on return: certainly when the target is known to have stopped, certainly not when a
      closed gate keeps its subtree from finishing; otherwise it depends on the schedule (the
      target may run its whole cleanup between the push and the caller's look at the context) *)
@@ -78,47 +104,62 @@ Definition new_handle (t : tree) (m : mstate) (kind n : nat) : mstate :=
     (if existsb (fun d => memb d (m_stopping m) && negb (memb d (m_stopped m))) (desc_of t n)
         && negb (memb n (m_stopping m)) then [5] else []) ++
     (if memb n (m_stopped m) then [11] else []) ++
-    match kind with 1 => [9] | 2 => [10] | 3 => [8] | _ => [] end in
-  {| m_handles := m_handles m ++ [(kind, n)];
-     m_stopping := add_all (closure t n) (m_stopping m);
-     m_stopped := m_stopped m; m_closed := m_closed m; m_book := m_book m;
-     m_at_return := m_at_return m ++ [if Nat.eqb kind 3 then Some false else pred];
-     m_probes := m_probes m; m_spec_probes := m_spec_probes m;
-     m_tags := m_tags m ++ tags |}.
+    (if existsb (fun r => memb r (closure t n)) (m_restarted m) then [16] else []) ++
+    match kind with
+    | 1 => [9] | 2 => [10]
+    | 3 => 8 :: (if memb n (m_restarted m) then [17] else [])
+    | _ => [] end in
+  upd_m m (m_handles m ++ [(kind, n)]) (add_all (closure t n) (m_stopping m)) (m_stopped m)
+        (m_at_return m ++ [if Nat.eqb kind 3 then Some false else pred]) tags.
 
-Definition do_probe (t : tree) (m : mstate) (n : nat) : mstate :=
+Definition do_probe (m : mstate) (n : nat) : mstate :=
+  let t := m_tree m in
   let spec_kids := filter (fun c => negb (memb c (m_stopped m))) (kids_of t n) in
-  {| m_handles := m_handles m; m_stopping := m_stopping m; m_stopped := m_stopped m;
-     m_closed := m_closed m; m_book := m_book m; m_at_return := m_at_return m;
+  {| m_tree := t; m_handles := m_handles m; m_stopping := m_stopping m; m_stopped := m_stopped m;
+     m_closed := m_closed m; m_book := m_book m; m_spawned := m_spawned m; m_at_return := m_at_return m;
      m_probes := m_probes m ++ [(n, children (m_book m) n, parent (m_book m) n)];
      m_spec_probes := m_spec_probes m ++ [(n, spec_kids, parent_in t n)];
-     m_tags := m_tags m ++ (if Nat.eqb (length spec_kids) (length (kids_of t n)) then [] else [7]) |}.
+     m_restarted := m_restarted m;
+     m_tags := m_tags m ++ (if Nat.eqb (length spec_kids) (length (kids_of t n)) then [] else [7]) ++
+               (if memb n (m_restarted m) && negb (Nat.eqb (length spec_kids) 0) then [18] else []) |}.
 
-Definition mstep (t : tree) (m : mstate) (s : sstep) : mstate :=
+Definition do_spawn (m : mstate) (p c : nat) : mstate :=
+  {| m_tree := add_kid p c (m_tree m); m_handles := m_handles m; m_stopping := m_stopping m;
+     m_stopped := m_stopped m; m_closed := m_closed m;
+     m_book := bstep (m_book m) (BSpawnChild p c); m_spawned := bstep (m_spawned m) (BSpawnChild p c);
+     m_at_return := m_at_return m; m_probes := m_probes m; m_spec_probes := m_spec_probes m;
+     m_restarted := m_restarted m; m_tags := m_tags m ++ [19] |}.
+
+Definition mstep (m : mstate) (s : sstep) : mstate :=
   match s with
-  | SPoison n => new_handle t m 0 n
-  | SStop n => new_handle t m 1 n
-  | SSelf n => new_handle t m 2 n
-  | SCrash n => new_handle t m 3 n
-  | SAwait k => do_await t m k
-  | SWaitGate g =>
-      {| m_handles := m_handles m; m_stopping := m_stopping m; m_stopped := m_stopped m;
-         m_closed := m_closed m; m_book := m_book m; m_at_return := m_at_return m;
-         m_probes := m_probes m; m_spec_probes := m_spec_probes m; m_tags := m_tags m ++ [3] |}
+  | SPoison n => new_handle m 0 n
+  | SStop n => new_handle m 1 n
+  | SSelf n => new_handle m 2 n
+  | SCrash n => new_handle m 3 n
+  | SAwait k => do_await m k
+  | SWaitGate g => upd_m m (m_handles m) (m_stopping m) (m_stopped m) (m_at_return m) [3]
   | SRelease g =>
-      {| m_handles := m_handles m; m_stopping := m_stopping m; m_stopped := m_stopped m;
-         m_closed := set_del g (m_closed m); m_book := m_book m; m_at_return := m_at_return m;
-         m_probes := m_probes m; m_spec_probes := m_spec_probes m; m_tags := m_tags m |}
+      {| m_tree := m_tree m; m_handles := m_handles m; m_stopping := m_stopping m; m_stopped := m_stopped m;
+         m_closed := set_del g (m_closed m); m_book := m_book m; m_spawned := m_spawned m;
+         m_at_return := m_at_return m; m_probes := m_probes m; m_spec_probes := m_spec_probes m;
+         m_restarted := m_restarted m; m_tags := m_tags m |}
   | SHold _ _ _ => m
-  | SProbe n => do_probe t m n
+  | SProbe n => do_probe m n
+  | SSpawn p c => do_spawn m p c
+  | SRestart n =>
+      {| m_tree := m_tree m; m_handles := m_handles m; m_stopping := m_stopping m; m_stopped := m_stopped m;
+         m_closed := m_closed m; m_book := m_book m; m_spawned := m_spawned m;
+         m_at_return := m_at_return m; m_probes := m_probes m; m_spec_probes := m_spec_probes m;
+         m_restarted := m_restarted m ++ [n];
+         m_tags := m_tags m ++ (15 :: if Nat.eqb (length (kids_of (m_tree m) n)) 0 then [] else [20]) |}
   end.
 
 Definition m_init (t : tree) (gates : list nat) : mstate :=
-  {| m_handles := []; m_stopping := []; m_stopped := []; m_closed := gates;
-     m_book := brun (spawn_ops t); m_at_return := []; m_probes := []; m_spec_probes := [];
-     m_tags := [] |}.
+  {| m_tree := t; m_handles := []; m_stopping := []; m_stopped := []; m_closed := gates;
+     m_book := brun (spawn_ops t); m_spawned := brun (spawn_ops t); m_at_return := [];
+     m_probes := []; m_spec_probes := []; m_restarted := []; m_tags := [] |}.
 
-Definition mrun (c : case) : mstate := fold_left (mstep (c_tree c)) (c_steps c) (m_init (c_tree c) (c_gates c)).
+Definition mrun (c : case) : mstate := fold_left mstep (c_steps c) (m_init (c_tree c) (c_gates c)).
 
 (* everything that was told to stop: the union of the subtrees of the handles' targets *)
 Definition stop_set (t : tree) (m : mstate) : list nat :=
@@ -165,14 +206,14 @@ Definition xinfo_eqb (a b : xinfo) : bool :=
 (* a single stop of one node, everything idle, no gate: the X order is exactly a
    post-order of the subtree *)
 Definition sequential_target (c : case) : option nat :=
-  match c_gates c, filter (fun s => match s with SAwait _ | SProbe _ => false | _ => true end) (c_steps c) with
+  match c_gates c, filter (fun s => match s with SAwait _ | SProbe _ | SSpawn _ _ | SRestart _ => false | _ => true end) (c_steps c) with
   | [], [SPoison n] | [], [SStop n] | [], [SSelf n] | [], [SCrash n] => Some n
   | _, _ => None
   end.
 
 (** ** Correspondence: the model's predictions against the observation *)
 Definition corr (c : case) : bool :=
-  let t := c_tree c in let o := c_obs c in let m := mrun c in
+  let o := c_obs c in let m := mrun c in let t := m_tree m in
   let stops := stop_set t m in
   negb (o_hang o) && negb (o_gate_timeout o) &&
   (* handles: created as scripted, all done, done-on-return as predicted *)
@@ -198,11 +239,11 @@ Definition corr (c : case) : bool :=
   forallb (fun n => match find_xinfo o n with
                     | Some x => xinfo_eqb x (model_xinfo t n)
                     | None => false end) stops &&
-  (* Parent() at Started, for every node *)
-  Nat.eqb (length (o_started o)) (length (ids t)) &&
-  forallb (fun n => existsb (fun sp => Nat.eqb (fst sp) n &&
-                                      option_nat_eqb (snd sp) (parent (brun (spawn_ops t)) n)) (o_started o))
-          (ids t) &&
+  (* Parent() at Started, for every incarnation of every node; one Stopped per replaced incarnation *)
+  Nat.eqb (length (o_started o)) (length (ids t) + length (m_restarted m)) &&
+  forallb (fun n => existsb (fun sp => Nat.eqb (fst sp) n) (o_started o)) (ids t) &&
+  forallb (fun sp => option_nat_eqb (snd sp) (parent (m_spawned m) (fst sp))) (o_started o) &&
+  Nat.eqb (o_rstops o) (length (m_restarted m)) &&
   (* probes *)
   all2 (fun mp op => Nat.eqb (fst (fst mp)) (op_n op) && op_answered op &&
                      seteqb (snd (fst mp)) (op_kids op) && nodupb (op_kids op) &&
@@ -211,7 +252,7 @@ Definition corr (c : case) : bool :=
 
 (** ** The property's predicate, on the observation *)
 Definition oracle (c : case) : bool :=
-  let t := c_tree c in let o := c_obs c in let m := mrun c in
+  let o := c_obs c in let m := mrun c in let t := m_tree m in
   (* no hang: every stop context becomes done (and every gated Stopped handler was reached) *)
   negb (o_hang o) && negb (o_gate_timeout o) && forallb oh_done (o_handles o) &&
   (* every descendant has handled Stopped before the ancestor starts handling its own *)
@@ -227,9 +268,9 @@ Definition oracle (c : case) : bool :=
                     option_nat_eqb (xi_parent x) (parent_in t (xi_n x)))
           (o_xinfo o) &&
   forallb (fun n => existsb (fun x => Nat.eqb (xi_n x) n) (o_xinfo o)) (xb_nodes (o_events o)) &&
-  (* Parent() names the spawner *)
-  forallb (fun n => existsb (fun sp => Nat.eqb (fst sp) n && option_nat_eqb (snd sp) (parent_in t n)) (o_started o))
-          (ids t) &&
+  (* Parent() names the spawner, in every incarnation *)
+  forallb (fun n => existsb (fun sp => Nat.eqb (fst sp) n) (o_started o)) (ids t) &&
+  forallb (fun sp => option_nat_eqb (snd sp) (parent_in t (fst sp))) (o_started o) &&
   (* Children() lists exactly the children that have not stopped *)
   all2 (fun sp op => Nat.eqb (fst (fst sp)) (op_n op) && op_answered op &&
                      seteqb (snd (fst sp)) (op_kids op) && nodupb (op_kids op) &&
@@ -242,11 +283,13 @@ Definition oracle (c : case) : bool :=
     descendant is already stopping (D11's window), 7 a probe after a child
     stopped on its own, 8 crash, 9 Stop (not graceful), 10 Poison(self),
     11 a stop for an actor that has already stopped, 12 depth 4, 13 fan-out 4,
-    14 two or more handles *)
+    14 two or more handles, 15 restart, 16 a stop whose subtree holds a restarted actor,
+    17 restart budget exhausted (crash after restarts), 18 probe of a restarted actor that
+    has children, 19 child spawned on demand, 20 restart of an actor that has children *)
 Fixpoint dedup (l : list nat) : list nat :=
   match l with [] => [] | x :: l' => if memb x l' then dedup l' else x :: dedup l' end.
 Definition branches (c : case) : list nat :=
-  let t := c_tree c in
+  let t := m_tree (mrun c) in
   dedup ((if Nat.leb 3 (depth t) then [1] else []) ++ (if Nat.leb 3 (fanout t) then [2] else []) ++
          (if Nat.leb 4 (depth t) then [12] else []) ++ (if Nat.leb 4 (fanout t) then [13] else []) ++
          (if Nat.leb 2 (length (m_handles (mrun c))) then [14] else []) ++
@@ -266,9 +309,9 @@ Definition obs_seq : obs :=
      o_xinfo := [mk_x 0 None; mk_x 1 (Some 0); mk_x 2 (Some 0); mk_x 3 (Some 1)];
      o_started := [(0, None); (1, Some 0); (2, Some 0); (3, Some 1)];
      o_handles := [{| oh_kind := 0; oh_target := 0; oh_at_return := false; oh_done := true; oh_alive := [] |}];
-     o_probes := []; o_hang := false; o_gate_timeout := false |}.
+     o_probes := []; o_hang := false; o_gate_timeout := false; o_rstops := 0 |}.
 Example report_smoke :
-  report [ {| c_tree := T3; c_gates := []; c_steps := [SPoison 0]; c_obs := obs_seq |} ] = ([], [], [[1]]).
+  report [ {| c_tree := T3; c_maxr := 0; c_gates := []; c_steps := [SPoison 0]; c_obs := obs_seq |} ] = ([], [], [[1]]).
 Proof. vm_compute. reflexivity. Qed.
 
 (* what the D11 tree shows: the parent handles Stopped while the gated grandchild is still inside its own *)
@@ -279,9 +322,30 @@ Definition obs_d11 : obs :=
      o_started := [(0, None); (1, Some 0); (2, Some 0); (3, Some 1)];
      o_handles := [{| oh_kind := 0; oh_target := 1; oh_at_return := false; oh_done := true; oh_alive := [] |};
                    {| oh_kind := 0; oh_target := 0; oh_at_return := false; oh_done := true; oh_alive := [1; 3] |}];
-     o_probes := []; o_hang := false; o_gate_timeout := false |}.
+     o_probes := []; o_hang := false; o_gate_timeout := false; o_rstops := 0 |}.
 Example report_d11 :
-  report [ {| c_tree := T3; c_gates := [3];
+  report [ {| c_tree := T3; c_maxr := 0; c_gates := [3];
               c_steps := [SPoison 1; SWaitGate 3; SPoison 0; SHold 1 1 1; SRelease 3; SAwait 1; SAwait 0];
               c_obs := obs_d11 |} ] = ([0], [0], [[1; 14; 3; 5]]).
+Proof. vm_compute. reflexivity. Qed.
+
+(* a restarted actor keeps its children: child 10 spawned on demand under 1, 1 restarts, is probed and poisoned *)
+Definition obs_restart (probe_kids : list nat) (evs : list oev) (alive : list nat) : obs :=
+  {| o_events := evs;
+     o_xinfo := map (fun n => mk_x n (parent_in (add_kid 1 10 T3) n)) (xb_nodes evs);
+     o_started := [(0, None); (1, Some 0); (1, Some 0); (2, Some 0); (3, Some 1); (10, Some 1)];
+     o_handles := [{| oh_kind := 0; oh_target := 1; oh_at_return := false; oh_done := true; oh_alive := alive |}];
+     o_probes := [{| op_n := 1; op_answered := true; op_kids := probe_kids; op_parent := Some 0 |}];
+     o_hang := false; o_gate_timeout := false; o_rstops := 1 |}.
+Definition steps_restart := [SSpawn 1 10; SRestart 1; SProbe 1; SPoison 1].
+Example report_restart_ok :
+  report [ {| c_tree := T3; c_maxr := 1; c_gates := []; c_steps := steps_restart;
+              c_obs := obs_restart [3; 10] [EXB 3; EXE 3; EXB 10; EXE 10; EXB 1; EXE 1; EDone 0] [] |} ]
+  = ([], [], [[1; 19; 15; 20; 18; 16]]).
+Proof. vm_compute. reflexivity. Qed.
+(* what the seeded change shows: Children() empty after the restart, the children left running *)
+Example report_restart_children_lost :
+  report [ {| c_tree := T3; c_maxr := 1; c_gates := []; c_steps := steps_restart;
+              c_obs := obs_restart [] [EXB 1; EXE 1; EDone 0] [3; 10] |} ]
+  = ([0], [0], [[1; 19; 15; 20; 18; 16]]).
 Proof. vm_compute. reflexivity. Qed.
